@@ -30,6 +30,15 @@ def make_alphabet(B, cfg, seed):
             pick += [int(ok[0]), int(ok[-1]), int(ok[len(ok) // 2])]
         if len(bad):
             pick += [int(bad[0]), int(bad[-1])]
+        # every value of every small-domain integer argument (flags, modes, shells of short ranges) with a succeeding tuple
+        sgl = q.sig[2:-1] if q.kind == "fn" else q.sig
+        for pos_, c_ in enumerate(sgl):
+            if c_ == "i" and len(ok):
+                col = np.asarray(q.cols[pos_])[ok]
+                vals = np.unique(col)
+                if 1 < len(vals) <= 8:
+                    for v_ in vals:
+                        pick.append(int(ok[np.nonzero(col == v_)[0][0]]))
         seen = set()
         sg = q.sig[2:-1] if q.kind == "fn" else q.sig
         for j in pick:
@@ -56,8 +65,11 @@ def make_alphabet(B, cfg, seed):
 class Proc:
     """one driver process; runs single ops and returns a comparable outcome"""
 
-    def __init__(self, B, cfg, locale=None):
-        self.X = xrl.Xrl("plain", cfg, build=B, nproc=1, locale=locale, sections=True)
+    def __init__(self, B, cfg, locale=None, fresh=False):
+        # a result that depends on uninitialised stack or heap is not a function of the arguments: the freshly exec'd reference processes
+        # and the history processes fill the stack below each call frame and fresh heap blocks with DIFFERENT bytes
+        env = dict(XDRV_STACKFILL="0") if fresh else dict(XDRV_STACKFILL="165", MALLOC_PERTURB_="90")
+        self.X = xrl.Xrl("plain", cfg, build=B, nproc=1, locale=locale, sections=True, env=env)
 
     def run(self, op):
         cols = [[a] for a in op["args"]]
@@ -132,7 +144,7 @@ def run(ctx, B):
 
             def fresh(i0, i1, out):
                 for i in range(i0, i1):
-                    P = Proc(B, cfg, lc)
+                    P = Proc(B, cfg, lc, fresh=True)
                     k0 = P.key()
                     o = P.run(ops[i])
                     k1 = P.key()
@@ -255,7 +267,7 @@ def replay(path):
     print("replaying %s" % d["key"])
     fresh = []
     for op in ops:
-        P = Proc(B, r.get("cfg", "A"), r.get("locale")); fresh.append(P.run(op)); P.close()
+        P = Proc(B, r.get("cfg", "A"), r.get("locale"), fresh=True); fresh.append(P.run(op)); P.close()
     P = Proc(B, r.get("cfg", "A"), r.get("locale"))
     k0 = P.key(); bad = 0
     for op, f in zip(ops, fresh):
